@@ -21,7 +21,7 @@ def gen(seed, family="mixed", size="small"):
     T = r.choice([2, 3, 4])
     maxdelay = {"ties": 1, "zerodelay": 2}.get(family, r.choice([2, 3, 5]))
     # payload table: sizes 0, <=32, >32; contents colliding on prefixes
-    psizes = [0, 1, 8, 8, 32, 33, 40, 100]
+    psizes = [0, 1, 8, 8, 32, 40, 40, 100]
     base = [r.randrange(256) for _ in range(128)]
     payloads = []
     for i, sz in enumerate(psizes):
